@@ -234,10 +234,11 @@ class Angle(Term):
                 if pm is not None:
                     f, dp = 1 / pm, -1
                 else:
-                    f, dp = Fraction(o), 0
+                    f, dp = core.float_fraction(o), 0
         if inv:
             f, dp = 1 / f, -dp
-        if f.denominator > 64 or abs(f.numerator) > 64:
+        if any((v * f).denominator > 64 or abs((v * f).numerator) > 4096 for (v, p) in s.ang.values()) or \
+                (s.kpi * f).denominator > 64:
             # not a "nice" multiple: treat the product as an angle expression of its own
             val = s.z * toz(f)
             if dp == 1:
@@ -323,22 +324,7 @@ def as_angle(t):
             raise EngineUnsupported(f"constant angle {t} that is not a multiple of pi")
         return Angle({}, pm)
     if isinstance(t, Term):
-        z = z3.simplify(t.z)
-        lin = _linear_in_angles(z)
-        if lin is not None:
-            return lin
-        cv = core._const_val(z)
-        if cv is not None:
-            if cv == 0:
-                return Angle({}, 0)
-            raise EngineUnsupported(f"constant angle {cv}")
-        # strip a rational factor:  c * u
-        if z3.is_mul(z) and z.num_args() == 2 and z3.is_rational_value(z.arg(0)):
-            c = core._const_val(z.arg(0))
-            a = atom_of_expr(z.arg(1))
-            return a * c
-        # pi multiple: c * pi
-        return atom_of_expr(z)
+        return _angle_of_expr(z3.simplify(t.z, som=True))
     raise EngineUnsupported(f"angle from {type(t)}")
 
 
@@ -363,6 +349,31 @@ def _linear_in_angles(z):
     if any(v[0].denominator > 64 or abs(v[0].numerator) > 64 for v in ang.values()):
         return None
     return Angle(ang, kpi)
+
+
+def _angle_of_expr(z):
+    """canonical decomposition of a real expression used as an angle: sums split, rational factors pulled
+    out, known angle values and pi recognised; what remains becomes an expression atom"""
+    lin = _linear_in_angles(z)
+    if lin is not None:
+        return lin
+    cv = core._const_val(z)
+    if cv is not None:
+        if cv == 0:
+            return Angle({}, 0)
+        raise EngineUnsupported(f"constant angle {cv}")
+    if z3.is_add(z):
+        r = None
+        for ch in z.children():
+            part = _angle_of_expr(ch)
+            r = part if r is None else Angle.combine(r, part, 1)
+        return r
+    if z3.is_mul(z) and z3.is_rational_value(z.arg(0)):
+        coef = core._const_val(z.arg(0))
+        rest = z.arg(1) if z.num_args() == 2 else z3.simplify(z3.Product(*z.children()[1:]))
+        if coef.denominator <= 64 and abs(coef.numerator) <= 64:
+            return _angle_of_expr(rest) * coef
+    return atom_of_expr(z)
 
 
 def angle_input(name, D=1):
